@@ -451,20 +451,6 @@ Proof.
   rewrite skipn_firstn_comm, firstn_firstn. f_equal. lia.
 Qed.
 
-Lemma vd_items_ok : forall el data idxs,
-  (forall i, In i idxs -> (i + 1) * el <= lenN data) ->
-  vd_items el data idxs = Ok (map (fun i => (i, elem_at data el i)) idxs).
-Proof.
-  induction idxs as [|i t IH]; intros H; cbn [vd_items map]; [reflexivity|].
-  unfold slice_bytes.
-  assert (Hi : (i + 1) * el <= lenN data) by (apply H; now left).
-  destruct (N.leb_spec (i * el) ((i + 1) * el)); [|lia].
-  destruct (N.leb_spec ((i + 1) * el) (lenN data)); [|lia].
-  cbn [andb bind]. rewrite IH by (intros; apply H; now right). cbn [bind].
-  unfold elem_at. do 4 f_equal. lia.
-Qed.
-
-(* the two ranges of the ring split enumerate the ring order *)
 Lemma ring_indices : forall len cap head,
   len <= cap -> (head < cap \/ (cap = 0 /\ head = 0)) ->
   (let ws := if cap =? 0 then 0 else head mod cap in
@@ -489,17 +475,6 @@ Proof.
         rewrite N.mod_add by assumption. rewrite N.mod_small; lia.
 Qed.
 
-Definition vd_guarded (len cap_raw el : N) : Prop :=
-  len <= LEN_GUARD /\ (el <> 0 -> cap_raw <= CAP_GUARD).
-Definition vd_guardedb (len cap_raw el : N) : bool :=
-  (len <=? LEN_GUARD) && ((el =? 0) || (cap_raw <=? CAP_GUARD)).
-Lemma vd_guardedb_sound : forall len cap el, vd_guardedb len cap el = true -> vd_guarded len cap el.
-Proof.
-  intros len cap el H. apply andb_true_iff in H as [H1 H2]. apply N.leb_le in H1.
-  split; [assumption|]. intros He. apply orb_true_iff in H2 as [H2|H2].
-  - apply N.eqb_eq in H2. contradiction.
-  - now apply N.leb_le.
-Qed.
 Lemma vd_validb_sound : forall len cap head el, vd_validb len cap head el = true -> vd_valid len cap head el.
 Proof.
   intros len cap head el H. unfold vd_validb in H. unfold vd_valid.
@@ -509,65 +484,174 @@ Proof.
   apply andb_true_iff in H2 as [Ha Hb]. apply N.eqb_eq in Ha, Hb. now right.
 Qed.
 
-Lemma vd_indices_eq : forall len cap_raw head el,
-  vd_guarded len cap_raw el -> vd_valid len cap_raw head el ->
-  vd_indices len cap_raw head el = vd_spec_indices len (vd_logical_cap cap_raw el) head.
+Lemma guard_len_le : forall x, x < 2 ^ 63 -> guard_len x <= LEN_GUARD.
 Proof.
-  intros len cap_raw head el [Hg1 Hg2] (Hv1 & Hv2 & _). unfold vd_indices.
-  rewrite guard_len_id by assumption.
-  assert (Hc : (if el =? 0 then USIZE_MAX else guard_cap cap_raw) = vd_logical_cap cap_raw el).
-  { unfold vd_logical_cap. destruct (N.eqb_spec el 0); [reflexivity|]. now apply guard_cap_id, Hg2. }
-  rewrite Hc. now apply ring_indices.
+  intros x H. unfold guard_len. destruct (N.ltb_spec x (2 ^ 63)); [|lia].
+  destruct (N.ltb_spec LEN_GUARD x); cbn [andb]; lia.
 Qed.
 
-(* Full statement (false, see the _refuted theorems below):
+(* the shape of the two ranges, for ANY header values *)
+Lemma vd_ranges_facts : forall len cap head el a b c d,
+  vd_ranges len cap head el = ((a, b), (c, d)) ->
+  a <= b /\ c <= d /\ b <= vd_cap cap el /\ d <= guard_len len /\ c = 0 /\
+  (b - a) + (d - c) = guard_len len.
+Proof.
+  intros len cap head el a b c d H. unfold vd_ranges in H.
+  set (C := vd_cap cap el) in *. set (G := guard_len len) in *.
+  assert (Hws : (if C =? 0 then 0 else head mod C) <= C).
+  { destruct (N.eqb_spec C 0); [lia|]. pose proof (N.mod_lt head C ltac:(assumption)). lia. }
+  set (ws := if C =? 0 then 0 else head mod C) in *.
+  destruct (N.leb_spec G (C - ws)); inversion H; subst; lia.
+Qed.
+
+Lemma vd_indices_length : forall len cap head el,
+  length (vd_indices len cap head el) = N.to_nat (guard_len len).
+Proof.
+  intros. unfold vd_indices. destruct (vd_ranges len cap head el) as [[a b] [c d]] eqn:E.
+  apply vd_ranges_facts in E. unfold range_list. rewrite app_length, !seqN_length. lia.
+Qed.
+
+Lemma skipn_skipn' : forall {A} x y (l : list A), skipn x (skipn y l) = skipn (y + x) l.
+Proof.
+  intros A x y. induction y; intros l; cbn [skipn Nat.add]; [reflexivity|].
+  destruct l; [now rewrite skipn_nil | apply IHy].
+Qed.
+
+Lemma elem_at_window : forall buf el a j n,
+  (j + 1) * el <= n ->
+  elem_at (firstn (N.to_nat n) (skipn (N.to_nat (a * el)) buf)) el j = elem_at buf el (a + j).
+Proof.
+  intros buf el a j n H. unfold elem_at.
+  rewrite skipn_firstn_comm, firstn_firstn, skipn_skipn'. rewrite N.mul_add_distr_r.
+  f_equal; [lia|]. f_equal. lia.
+Qed.
+
+Lemma vd_read_range_cases : forall dp buf el a b,
+  a <= b -> dp + b * el < 2 ^ 63 ->
+  vd_read_range dp buf el (a, b) =
+  if b * el <=? lenN buf
+  then Ok (firstn (N.to_nat ((b - a) * el)) (skipn (N.to_nat (a * el)) buf))
+  else Err EIO.
+Proof.
+  intros dp buf el a b Hab Hov. unfold vd_read_range.
+  assert (H1 : a * el <= b * el) by (now apply N.mul_le_mono_r).
+  assert (H2 : (b - a) * el = b * el - a * el) by apply N.mul_sub_distr_r.
+  rewrite H2. set (pa := a * el) in *. set (pb := b * el) in *.
+  destruct (N.leb_spec (2 ^ 64) pa); [lia|].
+  destruct (N.leb_spec (2 ^ 64) (dp + pa)); [lia|].
+  destruct (N.leb_spec (2 ^ 64) (pb - pa)); [lia|].
+  destruct (N.leb_spec (2 ^ 63) (pb - pa)); [lia|].
+  unfold read_bytes.
+  destruct (N.leb_spec (pa + (pb - pa)) (lenN buf)), (N.leb_spec pb (lenN buf)); try lia; reflexivity.
+Qed.
+
+Lemma vd_range_map : forall buf el a b,
+  a <= b ->
+  map (fun i => (i, elem_at (firstn (N.to_nat ((b - a) * el)) (skipn (N.to_nat (a * el)) buf)) el (i - a)))
+      (range_list a b)
+  = map (fun i => (i, elem_at buf el i)) (range_list a b).
+Proof.
+  intros buf el a b Hab. unfold range_list. apply map_ext_seqN. intros x Hx1 Hx2.
+  f_equal. rewrite elem_at_window.
+  - f_equal. lia.
+  - apply N.mul_le_mono_r. lia.
+Qed.
+
+(* What is shown, for ANY header values (len > cap, cap = 0, head >= cap, ...): if the two ranges are
+   readable the slots [vd_indices] with whatever the memory holds there; else the read error.
+   [data_ptr + (cap + len) * el < 2^63] keeps the usize arithmetic of read_range from overflowing. *)
+Theorem vecdeque_total : forall dp len cap head el buf,
+  dp + (vd_cap cap el + guard_len len) * el < 2 ^ 63 ->
+  vecdeque_decode_at dp len cap head el buf = Err EIO \/
+  vecdeque_decode_at dp len cap head el buf =
+    Ok (map (fun i => (i, elem_at buf el i)) (vd_indices len cap head el)).
+Proof.
+  intros dp len cap head el buf Hov. unfold vecdeque_decode_at, vd_indices.
+  destruct (vd_ranges len cap head el) as [[a b] [c d]] eqn:E.
+  destruct (vd_ranges_facts _ _ _ _ _ _ _ _ E) as (Hab & Hcd & Hb & Hd & Hc & Hsum).
+  assert (Hbe : b * el <= (vd_cap cap el + guard_len len) * el) by (apply N.mul_le_mono_r; lia).
+  assert (Hde : d * el <= (vd_cap cap el + guard_len len) * el) by (apply N.mul_le_mono_r; lia).
+  rewrite !vd_read_range_cases by (assumption || lia).
+  destruct (b * el <=? lenN buf); cbn [bind]; [|now left].
+  destruct (d * el <=? lenN buf); cbn [bind]; [|now left].
+  right. rewrite !vd_range_map by assumption. now rewrite map_app.
+Qed.
+
+(* in particular never a panic and never more than LEN_GUARD items when the len field is below 2^63 *)
+Corollary vecdeque_no_panic : forall dp len cap head el buf,
+  len < 2 ^ 63 -> dp + (vd_cap cap el + LEN_GUARD) * el < 2 ^ 63 ->
+  vecdeque_decode_at dp len cap head el buf = Err EIO \/
+  exists items, vecdeque_decode_at dp len cap head el buf = Ok items /\
+                map fst items = vd_indices len cap head el /\ lenN items = guard_len len /\
+                lenN items <= LEN_GUARD.
+Proof.
+  intros dp len cap head el buf Hl Hov. pose proof (guard_len_le len Hl) as Hg.
+  destruct (vecdeque_total dp len cap head el buf) as [H|H].
+  - assert ((vd_cap cap el + guard_len len) * el <= (vd_cap cap el + LEN_GUARD) * el)
+      by (apply N.mul_le_mono_r; lia). lia.
+  - now left.
+  - right. eexists. split; [exact H|]. split; [|split].
+    + rewrite map_map. cbn [fst]. apply map_id.
+    + unfold lenN. rewrite map_length, vd_indices_length. lia.
+    + unfold lenN. rewrite map_length, vd_indices_length. lia.
+Qed.
+
+Lemma vd_indices_eq : forall len cap_raw head el,
+  len <= LEN_GUARD -> vd_valid len cap_raw head el ->
+  vd_indices len cap_raw head el = vd_spec_indices len (vd_logical_cap cap_raw el) head.
+Proof.
+  intros len cap_raw head el Hg (Hv1 & Hv2 & _).
+  pose proof (ring_indices len (vd_logical_cap cap_raw el) head Hv1 Hv2) as R. cbn zeta in R.
+  unfold vd_indices, vd_ranges. rewrite guard_len_id by assumption.
+  change (vd_cap cap_raw el) with (vd_logical_cap cap_raw el).
+  destruct (len <=? _); [|exact R].
+  rewrite <- R. change (range_list 0 0) with (@nil N). now rewrite app_nil_r.
+Qed.
+
+(* Full statement (false, see vecdeque_len_guard_refuted):
      forall len cap head el buf, vd_valid len cap head el -> cap * el <= lenN buf ->
        vecdeque_decode len cap head el buf = Ok (vecdeque_spec len cap head el buf).
-   Proved under the extra hypothesis [vd_guarded] (decidable by [vd_guardedb]). *)
-Theorem vecdeque_exact_partial : forall len cap_raw head el buf,
-  vd_guarded len cap_raw el -> vd_valid len cap_raw head el ->
-  cap_raw * el < 2 ^ 64 -> cap_raw * el <= lenN buf ->
-  vecdeque_decode len cap_raw head el buf = Ok (vecdeque_spec len cap_raw head el buf).
+   Proved for ANY capacity under the extra hypothesis len <= LEN_GUARD (decidable by N.leb). *)
+Theorem vecdeque_exact_partial : forall dp len cap_raw head el buf,
+  len <= LEN_GUARD -> vd_valid len cap_raw head el ->
+  cap_raw * el <= lenN buf -> dp + (cap_raw + LEN_GUARD) * el < 2 ^ 63 ->
+  vecdeque_decode_at dp len cap_raw head el buf = Ok (vecdeque_spec len cap_raw head el buf).
 Proof.
-  intros len cap_raw head el buf Hg Hv Hovf Hbuf.
-  unfold vecdeque_decode, vecdeque_spec. rewrite vd_indices_eq by assumption.
-  assert (Hc : (if el =? 0 then USIZE_MAX else guard_cap cap_raw) = vd_logical_cap cap_raw el).
-  { unfold vd_logical_cap. destruct (N.eqb_spec el 0); [reflexivity|]. apply guard_cap_id, Hg. assumption. }
-  rewrite Hc. set (cap := vd_logical_cap cap_raw el) in *.
-  assert (Hce : cap * el = cap_raw * el).
-  { subst cap. unfold vd_logical_cap. destruct (N.eqb_spec el 0); [subst; lia | reflexivity]. }
-  rewrite Hce. destruct (N.leb_spec (2 ^ 64) (cap_raw * el)); [lia|].
-  rewrite read_bytes_ok by lia. cbn [bind skipn N.to_nat].
-  destruct Hv as (Hv1 & Hv2 & Hv3).
-  assert (Hidx : forall i, In i (vd_spec_indices len cap head) -> (i + 1) * el <= cap_raw * el).
-  { intros i Hi. unfold vd_spec_indices in Hi. apply in_map_iff in Hi as (j & <- & Hj).
-    apply seqN_In in Hj. rewrite <- Hce. apply N.mul_le_mono_r.
-    assert (cap <> 0) by lia. pose proof (N.mod_lt (head + j) cap ltac:(assumption)). lia. }
-  rewrite vd_items_ok.
-  - f_equal. apply map_ext_in. intros i Hi. f_equal. apply elem_at_firstn. now apply Hidx.
-  - intros i Hi. unfold lenN. rewrite firstn_length. unfold lenN in Hbuf. apply Hidx in Hi. lia.
+  intros dp len cap_raw head el buf Hg Hv Hbuf Hov.
+  unfold vecdeque_spec. rewrite <- vd_indices_eq by assumption.
+  unfold vecdeque_decode_at, vd_indices.
+  destruct (vd_ranges len cap_raw head el) as [[a b] [c d]] eqn:E.
+  destruct (vd_ranges_facts _ _ _ _ _ _ _ _ E) as (Hab & Hcd & Hb & Hd & Hc & Hsum).
+  rewrite guard_len_id in Hd, Hsum by assumption.
+  destruct Hv as (Hv1 & _ & _).
+  assert (Hce : vd_cap cap_raw el * el = cap_raw * el).
+  { unfold vd_cap. destruct (N.eqb_spec el 0); [subst; lia | reflexivity]. }
+  assert (Hdc : d <= vd_cap cap_raw el) by (unfold vd_logical_cap, vd_cap in *; lia).
+  assert (Hbe : b * el <= cap_raw * el) by (rewrite <- Hce; now apply N.mul_le_mono_r).
+  assert (Hde : d * el <= cap_raw * el) by (rewrite <- Hce; now apply N.mul_le_mono_r).
+  assert (Hx : cap_raw * el <= (cap_raw + LEN_GUARD) * el) by (apply N.mul_le_mono_r; lia).
+  rewrite !vd_read_range_cases by (assumption || lia).
+  destruct (N.leb_spec (b * el) (lenN buf)); [|lia]. cbn [bind].
+  destruct (N.leb_spec (d * el) (lenN buf)); [|lia]. cbn [bind].
+  rewrite !vd_range_map by assumption. now rewrite map_app.
 Qed.
 
 Example vecdeque_partial_applies :
-  vd_guardedb 3 4 1 = true /\ vd_validb 3 4 2 1 = true /\
+  (3 <=? LEN_GUARD) = true /\ vd_validb 3 4 2 1 = true /\
   vecdeque_decode 3 4 2 1 [10; 11; 12; 13] = Ok [(2, [12]); (3, [13]); (0, [10])].
 Proof. vm_compute. auto. Qed.
 
-(* capacity above CAP_GUARD: the capped value is used as ring modulus and buffer size; elements of
-   another slot are shown *)
-Theorem vecdeque_cap_guard_refuted :
-  exists len cap head el buf,
-    vd_valid len cap head el /\ cap * el = lenN buf /\
-    vecdeque_decode len cap head el buf = Ok [(0, [0])] /\
-    vecdeque_spec len cap head el buf = [(10000, [7])].
+(* vecdeque_cap_guard_refuted_old (true of the source before 1a591ca, witness len 1, cap 10001, head 10000:
+   slot 0 shown instead of slot 10000) no longer holds: the same header is now decoded exactly *)
+Example vecdeque_cap_above_guard_fixed :
+  vd_valid 1 10001 10000 1 /\
+  vecdeque_decode 1 10001 10000 1 (repeat 0 (N.to_nat 10000) ++ [7]) = Ok [(10000, [7])] /\
+  vecdeque_spec 1 10001 10000 1 (repeat 0 (N.to_nat 10000) ++ [7]) = [(10000, [7])].
 Proof.
-  exists 1, 10001, 10000, 1, (repeat 0 (N.to_nat 10000) ++ [7]).
-  split; [apply vd_validb_sound; vm_compute; reflexivity|].
-  split; [vm_compute; reflexivity|].
-  split; vm_compute; reflexivity.
+  split; [apply vd_validb_sound; vm_compute; reflexivity|]. split; vm_compute; reflexivity.
 Qed.
 
-(* length above LEN_GUARD: silently truncated *)
+(* length above LEN_GUARD: silently truncated (still the case) *)
 Theorem vecdeque_len_guard_refuted :
   exists len cap head el buf,
     vd_valid len cap head el /\ cap * el = lenN buf /\
@@ -580,12 +664,23 @@ Proof.
   eexists. split; [vm_compute; reflexivity|]. split; vm_compute; reflexivity.
 Qed.
 
-(* header fields that no VecDeque has (uninitialised or corrupt memory): len > cap makes the
-   decoder show a slot twice, or index past the fetched buffer and panic *)
-Theorem vecdeque_len_gt_cap_refuted :
-  vecdeque_decode 2 1 0 1 [5] = Ok [(0, [5]); (0, [5])] /\
-  vecdeque_decode 3 1 0 1 [5] = Panic SITE_VD_SLICE /\
-  vecdeque_decode 1 0 0 1 [] = Panic SITE_VD_SLICE.
+(* vecdeque_len_gt_cap_refuted_old (before 1a591ca: Panic SITE_VD_SLICE for len 3, cap 1 and len 1, cap 0).
+   Header fields no VecDeque has are now decoded without a panic (vecdeque_total); what is shown: *)
+Example vecdeque_len_gt_cap_shown :
+  vecdeque_decode 2 1 0 1 [5] = Ok [(0, [5]); (0, [5])] /\          (* slot 0 twice *)
+  vecdeque_decode 3 1 0 1 [5; 6] = Ok [(0, [5]); (0, [5]); (1, [6])] /\   (* memory behind the buffer *)
+  vecdeque_decode 3 1 0 1 [5] = Err EIO /\                           (* ... if it is readable *)
+  vecdeque_decode 1 0 0 1 [] = Err EIO.
+Proof. repeat split; vm_compute; reflexivity. Qed.
+
+(* "no panic for ANY header values" is false of the debug profile: the overflow hypothesis of
+   vecdeque_total is needed.  A capacity field of 2^62 (garbage) with 8-byte elements overflows
+   range.start * el_type_size; a len field with the top bit set is not guarded (negative i64) and
+   overflows range.len() * el_type_size. *)
+Theorem vecdeque_overflow_refuted :
+  vecdeque_decode 1 (2 ^ 62) (2 ^ 62 - 1) 8 [] = Panic SITE_VD_MUL /\
+  vecdeque_decode (2 ^ 63) 1 0 8 [1; 2; 3; 4; 5; 6; 7; 8] = Panic SITE_VD_MUL /\
+  vecdeque_decode (2 ^ 63 + 1) 1 0 1 [1] = Panic SITE_VD_ALLOC.
 Proof. repeat split; vm_compute; reflexivity. Qed.
 
 (* Vec: full statement (false): forall len, vec_decode len el buf = Ok (vec_spec len el buf) *)
@@ -892,24 +987,18 @@ Proof.
   intros k l H. destruct (hm_get k l) eqn:He; [|reflexivity]. apply hm_get_in in He. contradiction.
 Qed.
 
-Definition keys_faithful (signed : bool) (vs : list variant_die) : Prop :=
-  Forall (fun v => enum_key v = option_map wrap_i64 (intended_value signed v)) vs.
-Definition keys_faithfulb (signed : bool) (vs : list variant_die) : bool :=
-  forallb (fun v => okey_eqb (enum_key v) (option_map wrap_i64 (intended_value signed v))) vs.
-Lemma keys_faithfulb_sound : forall s vs, keys_faithfulb s vs = true -> keys_faithful s vs.
-Proof.
-  intros s vs H. apply Forall_forall. intros v Hv. unfold keys_faithfulb in H.
-  rewrite forallb_forall in H. now apply okey_eqb_eq, H.
-Qed.
+Definition keys_faithful (signed : bool) (sz : N) (vs : list variant_die) : Prop :=
+  Forall (fun v => enum_key signed sz v = option_map wrap_i64 (intended_value signed v)) vs.
 
-Lemma enum_find : forall signed tag vs,
-  NoDup (map fst (enum_table vs)) -> keys_faithful signed vs ->
+Lemma enum_find : forall signed sz tag vs,
+  NoDup (map fst (enum_table signed sz vs)) -> keys_faithful signed sz vs ->
   (forall v d, In v vs -> intended_value signed v = Some d -> wrap_i64 d = wrap_i64 tag -> d = tag) ->
-  hm_get (Some (wrap_i64 tag)) (enum_table vs) = spec_find tag (intended_table signed vs) /\
-  hm_get None (enum_table vs) = spec_default (intended_table signed vs).
+  hm_get (Some (wrap_i64 tag)) (enum_table signed sz vs) = spec_find tag (intended_table signed vs) /\
+  hm_get None (enum_table signed sz vs) = spec_default (intended_table signed vs).
 Proof.
-  intros signed tag. induction vs as [|v t IH]; intros Hnd Hf Hinj; [split; reflexivity|].
-  cbn [enum_table intended_table map fst] in *. fold (enum_table t) in *. fold (intended_table signed t) in *.
+  intros signed sz tag. induction vs as [|v t IH]; intros Hnd Hf Hinj; [split; reflexivity|].
+  cbn [enum_table intended_table map fst] in *.
+  fold (enum_table signed sz t) in *. fold (intended_table signed t) in *.
   inversion Hnd as [|? ? Hni Hnd']; subst. inversion Hf as [|? ? Hfv Hf']; subst.
   destruct (IH Hnd' Hf' (fun v' d Hin => Hinj v' d (or_intror Hin))) as [IH1 IH2].
   cbn [hm_get spec_find spec_default]. rewrite Hfv in *.
@@ -926,16 +1015,14 @@ Proof.
     + now rewrite (hm_get_notin _ _ Hni).
 Qed.
 
-(* Full statement (false, see enum_unsigned_high_discr_refuted):
-     forall vs tag, select_variant (enum_table vs) (Some (wrap_i64 tag)) = spec_variant (intended_table signed vs) tag.
-   Proved when the keys the debugger computes from the DWARF forms are the intended discriminants
-   ([keys_faithful], decidable by [keys_faithfulb]) and are pairwise different. *)
-Theorem enum_select_partial : forall signed vs tag,
-  NoDup (map fst (enum_table vs)) -> keys_faithful signed vs ->
+(* selection is right whenever the keys of the table are the intended discriminants; the
+   hypotheses are discharged for the current source in enum_select_exact *)
+Lemma enum_select_faithful : forall signed sz vs tag,
+  NoDup (map fst (enum_table signed sz vs)) -> keys_faithful signed sz vs ->
   (forall v d, In v vs -> intended_value signed v = Some d -> wrap_i64 d = wrap_i64 tag -> d = tag) ->
-  select_variant (enum_table vs) (Some (wrap_i64 tag)) = spec_variant (intended_table signed vs) tag.
+  select_variant (enum_table signed sz vs) (Some (wrap_i64 tag)) = spec_variant (intended_table signed vs) tag.
 Proof.
-  intros signed vs tag Hnd Hf Hinj. destruct (enum_find signed tag vs Hnd Hf Hinj) as [H1 H2].
+  intros signed sz vs tag Hnd Hf Hinj. destruct (enum_find signed sz tag vs Hnd Hf Hinj) as [H1 H2].
   unfold select_variant, spec_variant. rewrite H1, H2. reflexivity.
 Qed.
 
@@ -948,38 +1035,205 @@ Proof.
   destruct (Z.ltb_spec (a mod 2 ^ 64) (2 ^ 63)), (Z.ltb_spec (b mod 2 ^ 64) (2 ^ 63)); lia.
 Qed.
 
-(* the tag as the debugger reads it *)
-Lemma read_discr_unsigned : forall sz tag rest,
-  int_width_ok sz = true -> sz <> 16 -> tag < 2 ^ (8 * sz) ->
-  read_discr false sz (to_le_bytes_u (N.to_nat sz) tag ++ rest) = Ok (Some (wrap_i64 (Z.of_N tag))).
+Lemma wrap_i64_small : forall z, (- 2 ^ 63 <= z < 2 ^ 63)%Z -> wrap_i64 z = z.
+Proof. intros z H. unfold wrap_i64. destruct (Z.ltb_spec (z mod 2 ^ 64) (2 ^ 63)); lia. Qed.
+
+(* the value range of a tag type *)
+Definition in_tag_range (signed : bool) (sz : N) (d : Z) : Prop :=
+  if signed then (- Z.of_N (2 ^ (8 * sz - 1)) <= d < Z.of_N (2 ^ (8 * sz - 1)))%Z
+  else (0 <= d < Z.of_N (2 ^ (8 * sz)))%Z.
+Definition in_tag_rangeb (signed : bool) (sz : N) (d : Z) : bool :=
+  if signed then (- Z.of_N (2 ^ (8 * sz - 1)) <=? d)%Z && (d <? Z.of_N (2 ^ (8 * sz - 1)))%Z
+  else (0 <=? d)%Z && (d <? Z.of_N (2 ^ (8 * sz)))%Z.
+Definition tag_size_ok (sz : N) : Prop := sz = 1 \/ sz = 2 \/ sz = 4 \/ sz = 8.
+
+Ltac eval_pows :=
+  repeat match goal with
+  | |- context [N.pow 2 ?e] => let v := eval vm_compute in (N.pow 2 e) in change (N.pow 2 e) with v
+  | H : context [N.pow 2 ?e] |- _ => let v := eval vm_compute in (N.pow 2 e) in change (N.pow 2 e) with v in H
+  | |- context [Z.of_N (Npos ?p)] => let v := eval vm_compute in (Z.of_N (Npos p)) in change (Z.of_N (Npos p)) with v
+  | H : context [Z.of_N (Npos ?p)] |- _ => let v := eval vm_compute in (Z.of_N (Npos p)) in change (Z.of_N (Npos p)) with v in H
+  end.
+
+Lemma in_tag_range_i64 : forall signed sz d,
+  tag_size_ok sz -> in_tag_range signed sz d ->
+  if signed return Prop then (- 2 ^ 63 <= d < 2 ^ 63)%Z else (0 <= d < 2 ^ 64)%Z.
 Proof.
-  intros sz tag rest Hw H16 Ht. unfold read_discr.
-  pose proof (parse_int_exact false sz (Z.of_N tag) rest Hw) as Hp. cbn iota in Hp.
-  rewrite N2Z.id in Hp. rewrite Hp by lia. cbn [bind try_as_number].
-  destruct (N.eqb_spec sz 16); [contradiction | reflexivity].
+  intros signed sz d Hsz H. unfold in_tag_range in H.
+  destruct Hsz as [-> | [-> | [-> | ->]]]; destruct signed; eval_pows; lia.
 Qed.
 
-Example enum_partial_applies :
-  let vs := [(Some (FData1, 0%Z), 10); (Some (FData1, 127%Z), 11); (None, 12)] in
-  keys_faithfulb false vs = true /\
-  enum_decode false 1 vs [127] = Ok (Some 11) /\ enum_decode false 1 vs [5] = Ok (Some 12).
-Proof. vm_compute. auto. Qed.
-
-(* DW_AT_discr_value of an unsigned tag is emitted in the smallest DW_FORM_data<n>; gimli's
-   sdata_value sign-extends it, the tag itself is read unsigned: a discriminant with the top bit of
-   its form set never matches, the default (dataful) variant is shown instead.
-   Option<E> with E a field-less enum of 200 variants: None is the niche value 200, DW_FORM_data1 0xc8. *)
-Theorem enum_unsigned_high_discr_refuted :
-  exists vs bytes,
-    enum_decode false 1 vs bytes = Ok (Some 0) /\
-    bytes = to_le_bytes_u 1 200 /\
-    spec_variant (intended_table false vs) 200 = Some 1.
+(* discr_value_in_tag_range leaves a value of the tag type alone *)
+Lemma discr_in_tag_range_id : forall signed sz d,
+  tag_size_ok sz -> in_tag_range signed sz d -> discr_in_tag_range signed sz d = d.
 Proof.
-  exists [(Some (FData1, 200%Z), 1); (None, 0)], [200].
-  repeat split; vm_compute; reflexivity.
+  intros signed sz d Hsz H. unfold in_tag_range in H. unfold discr_in_tag_range.
+  destruct Hsz as [-> | [-> | [-> | ->]]]; destruct signed;
+    match goal with
+    | |- context [(?a =? 0) || (8 <=? ?a)] =>
+        let v := eval vm_compute in ((a =? 0) || (8 <=? a)) in change ((a =? 0) || (8 <=? a)) with v
+    end; cbn iota zeta; try reflexivity;
+    unfold to_signed; cbn [N.to_nat Pos.to_nat Pos.iter_op Nat.add]; eval_pows;
+    try match goal with |- context [N.ltb ?a ?b] => destruct (N.ltb_spec a b) end; lia.
 Qed.
 
-(* a 16-byte tag (u128/i128 discriminant or niche): try_as_number gives None, no variant at all *)
+(* the key of a variant in the table built by parse_struct_enum is its discriminant, for every form
+   (data1/2/4/8, sdata, udata) and both signednesses of the tag *)
+Lemma enum_key_exact : forall signed sz f raw id d,
+  tag_size_ok sz ->
+  intended_value signed (Some (f, raw), id) = Some d -> in_tag_range signed sz d ->
+  enum_key signed sz (Some (f, raw), id) = Some (wrap_i64 d).
+Proof.
+  intros signed sz f raw id d Hsz Hi Hr. unfold enum_key, intended_value in *. cbn [fst] in *.
+  pose proof (in_tag_range_i64 _ _ _ Hsz Hr) as H64.
+  destruct signed.
+  - (* signed tag: the constant sign-extended by the form *)
+    unfold discr_attr_value. rewrite Hi. cbn [option_map].
+    rewrite discr_in_tag_range_id by assumption. now rewrite wrap_i64_small.
+  - (* unsigned tag: the zero-extended bits *)
+    inversion Hi; subst d. cbn iota in H64.
+    assert (Hv : discr_attr_value false f raw = Some (wrap_i64 raw)).
+    { unfold discr_attr_value, udata_value. destruct f; try reflexivity.
+      destruct (Z.ltb_spec raw 0); [lia | reflexivity]. }
+    rewrite Hv. cbn [option_map]. f_equal.
+    destruct Hsz as [-> | [-> | [-> | ->]]]; try reflexivity;
+      (rewrite wrap_i64_small by (unfold in_tag_range in Hr; eval_pows; lia);
+       apply discr_in_tag_range_id; [unfold tag_size_ok; tauto | exact Hr]).
+Qed.
+
+(* every variant with a DW_AT_discr_value has a discriminant of the tag type *)
+Definition variants_in_range (signed : bool) (sz : N) (vs : list variant_die) : Prop :=
+  Forall (fun v => match fst v with
+                   | None => True
+                   | Some _ => exists d, intended_value signed v = Some d /\ in_tag_range signed sz d
+                   end) vs.
+Definition variants_in_rangeb (signed : bool) (sz : N) (vs : list variant_die) : bool :=
+  forallb (fun v => match fst v with
+                    | None => true
+                    | Some _ => match intended_value signed v with
+                                | Some d => in_tag_rangeb signed sz d
+                                | None => false
+                                end
+                    end) vs.
+
+Lemma keys_faithful_holds : forall signed sz vs,
+  tag_size_ok sz -> variants_in_range signed sz vs -> keys_faithful signed sz vs.
+Proof.
+  intros signed sz vs Hsz H. unfold keys_faithful, variants_in_range in *.
+  eapply Forall_impl; [|exact H]. intros [[[f raw]|] id] Hv; cbn [fst] in Hv.
+  - destruct Hv as (d & Hd & Hr). rewrite Hd. cbn [option_map]. eapply enum_key_exact; eassumption.
+  - reflexivity.
+Qed.
+
+Lemma intended_in_range : forall signed sz vs v d,
+  variants_in_range signed sz vs -> In v vs -> intended_value signed v = Some d -> in_tag_range signed sz d.
+Proof.
+  intros signed sz vs v d H Hin Hd. unfold variants_in_range in H. rewrite Forall_forall in H.
+  specialize (H v Hin). destruct v as [[a|] id]; cbn [fst] in H.
+  - destruct H as (d' & Hd' & Hr). rewrite Hd in Hd'. now inversion Hd'.
+  - unfold intended_value in Hd. cbn [fst] in Hd. discriminate.
+Qed.
+
+Lemma range_inj : forall signed sz a b,
+  tag_size_ok sz -> in_tag_range signed sz a -> in_tag_range signed sz b ->
+  wrap_i64 a = wrap_i64 b -> a = b.
+Proof.
+  intros signed sz a b Hsz Ha Hb. apply wrap_i64_inj.
+  pose proof (in_tag_range_i64 _ _ _ Hsz Ha). pose proof (in_tag_range_i64 _ _ _ Hsz Hb).
+  destruct signed; [right | left]; tauto.
+Qed.
+
+Lemma keys_nodup : forall signed sz vs,
+  tag_size_ok sz -> variants_in_range signed sz vs ->
+  NoDup (map fst (intended_table signed vs)) -> NoDup (map fst (enum_table signed sz vs)).
+Proof.
+  intros signed sz vs Hsz Hr Hnd.
+  pose proof (keys_faithful_holds signed sz vs Hsz Hr) as Hf. unfold keys_faithful in Hf.
+  rewrite Forall_forall in Hf.
+  unfold enum_table, intended_table in *. rewrite map_map in *. cbn [fst] in *.
+  rewrite (map_ext_in _ (fun v => option_map wrap_i64 (intended_value signed v))) by exact Hf.
+  rewrite <- (map_map (intended_value signed) (option_map wrap_i64)).
+  apply NoDup_map_inj; [|exact Hnd].
+  intros x y Hx Hy Hxy. apply in_map_iff in Hx as (vx & <- & Hvx). apply in_map_iff in Hy as (vy & <- & Hvy).
+  destruct (intended_value signed vx) as [a|] eqn:Ea, (intended_value signed vy) as [b|] eqn:Eb;
+    cbn [option_map] in Hxy; try discriminate; [|reflexivity].
+  inversion Hxy as [Hw]. f_equal.
+  exact (range_inj signed sz a b Hsz (intended_in_range signed sz vs vx a Hr Hvx Ea)
+           (intended_in_range signed sz vs vy b Hr Hvy Eb) Hw).
+Qed.
+
+(* Enum variant selection at HEAD (17dfded): for a tag of 1, 2, 4 or 8 bytes of either signedness and
+   discriminant constants in ANY form, the variant selected for a tag value is the variant whose
+   discriminant equals it, the default (niche / dataful) variant otherwise.  Remaining hypotheses:
+   the discriminants are values of the tag type and pairwise different (at most one default). *)
+Theorem enum_select_exact : forall signed sz vs tag,
+  tag_size_ok sz -> variants_in_range signed sz vs ->
+  NoDup (map fst (intended_table signed vs)) -> in_tag_range signed sz tag ->
+  select_variant (enum_table signed sz vs) (Some (wrap_i64 tag)) = spec_variant (intended_table signed vs) tag.
+Proof.
+  intros signed sz vs tag Hsz Hr Hnd Ht. apply enum_select_faithful.
+  - now apply keys_nodup.
+  - now apply keys_faithful_holds.
+  - intros v d Hin Hd. exact (range_inj signed sz d tag Hsz (intended_in_range signed sz vs v d Hr Hin Hd) Ht).
+Qed.
+
+(* the tag as the debugger reads it: width and signedness of the tag type *)
+Lemma read_discr_exact : forall (signed : bool) sz tag rest,
+  tag_size_ok sz -> in_tag_range signed sz tag ->
+  read_discr signed sz
+    ((if signed then to_le_bytes_s (N.to_nat sz) tag else to_le_bytes_u (N.to_nat sz) (Z.to_N tag)) ++ rest)
+  = Ok (Some (wrap_i64 tag)).
+Proof.
+  intros signed sz tag rest Hsz Ht. unfold read_discr.
+  assert (Hw : int_width_ok sz = true) by (destruct Hsz as [-> | [-> | [-> | ->]]]; reflexivity).
+  rewrite (parse_int_exact signed sz tag rest Hw).
+  - cbn [bind try_as_number]. destruct (N.eqb_spec sz 16); [|reflexivity].
+    destruct Hsz as [? | [? | [? | ?]]]; lia.
+  - unfold in_tag_range in Ht. destruct signed; exact Ht.
+Qed.
+
+Theorem enum_decode_exact : forall (signed : bool) sz vs tag rest,
+  tag_size_ok sz -> variants_in_range signed sz vs ->
+  NoDup (map fst (intended_table signed vs)) -> in_tag_range signed sz tag ->
+  enum_decode signed sz vs
+    ((if signed then to_le_bytes_s (N.to_nat sz) tag else to_le_bytes_u (N.to_nat sz) (Z.to_N tag)) ++ rest)
+  = Ok (spec_variant (intended_table signed vs) tag).
+Proof.
+  intros signed sz vs tag rest Hsz Hr Hnd Ht. unfold enum_decode.
+  rewrite read_discr_exact by assumption. cbn [bind]. f_equal. now apply enum_select_exact.
+Qed.
+
+Lemma variants_in_rangeb_sound : forall signed sz vs,
+  variants_in_rangeb signed sz vs = true -> variants_in_range signed sz vs.
+Proof.
+  intros signed sz vs H. apply Forall_forall. intros v Hv. unfold variants_in_rangeb in H.
+  rewrite forallb_forall in H. specialize (H v Hv). destruct (fst v); [|exact I].
+  destruct (intended_value signed v) as [d|]; [|discriminate]. exists d. split; [reflexivity|].
+  unfold in_tag_rangeb in H. unfold in_tag_range. destruct signed; apply andb_true_iff in H as [H1 H2];
+    apply Z.leb_le in H1; apply Z.ltb_lt in H2; lia.
+Qed.
+
+(* The three earlier versions of the source, all refuted on concrete DWARF and on the real debugger:
+   - enum_unsigned_high_discr_refuted_old (before 163122d): u8 tag, DW_FORM_data1 0xc8, tag byte 200:
+     sdata_value gives -56, the default variant (or none) was shown.
+   - enum_unsigned_narrow_form_refuted_old (163122d): u16/u32/u64 tag, data1 0x96: -106 reduced to the
+     tag width is 65430, never equal to the tag 150.
+   - enum_signed_narrow_form_refuted_old (0670875, zero-extension for every tag): i16/i32/i64/isize tag,
+     -56 = data1 0xc8 read as 200.
+   The same inputs through the current model: *)
+Example enum_former_witnesses_fixed :
+  enum_decode false 1 [(Some (FData1, 200%Z), 1); (None, 0)] [200] = Ok (Some 1) /\
+  enum_decode false 2 [(Some (FData1, 150%Z), 1); (Some (FData1, 5%Z), 0)] [150; 0] = Ok (Some 1) /\
+  enum_decode false 4 [(Some (FData2, 40000%Z), 1); (Some (FData4, 70000%Z), 0)] [64; 156; 0; 0] = Ok (Some 1) /\
+  enum_decode false 8 [(Some (FData1, 150%Z), 1); (Some (FData1, 5%Z), 0)] [150; 0; 0; 0; 0; 0; 0; 0] = Ok (Some 1) /\
+  enum_decode true 2 [(Some (FData1, 200%Z), 1); (Some (FData2, 65236%Z), 2)] [200; 255] = Ok (Some 1) /\
+  enum_decode true 2 [(Some (FData1, 200%Z), 1); (Some (FData2, 65236%Z), 2)] [212; 254] = Ok (Some 2) /\
+  enum_decode true 8 [(Some (FData1, 200%Z), 1); (Some (FData1, 5%Z), 0)] (200 :: repeat 255 7) = Ok (Some 1) /\
+  variants_in_rangeb true 2 [(Some (FData1, 200%Z), 1); (Some (FData2, 65236%Z), 2)] = true.
+Proof. repeat split; vm_compute; reflexivity. Qed.
+
+(* a 16-byte tag (u128/i128 discriminant or niche): try_as_number gives None, no variant at all
+   (still the case; `let x: Option<u128> = Some(u128::MAX)` shows `Option<u128>(unknown)`) *)
 Theorem enum_128bit_tag_refuted :
   exists vs bytes, enum_decode false 16 vs bytes = Ok None /\
                    spec_variant (intended_table false vs) 0 = Some 1.
